@@ -338,8 +338,12 @@ static int generate_password(const char *keyfile)
         password[posn] = (unsigned char)pw_chars[password[posn] & 0x3F];
 
     /* Write the generated password to keyfile */
-    safe_file_write(&file, password, sizeof(password));
-    safe_file_write(&file, "\n", 1);
+    if (safe_file_write(&file, password, sizeof(password)) != (int)sizeof(password) ||
+            safe_file_write(&file, "\n", 1) != 1) {
+        safe_file_delete(&file);
+        ascon_clean(password, sizeof(password));
+        return 0;
+    }
     safe_file_close(&file);
 
     /* Clean up and exit */
@@ -484,8 +488,8 @@ static int encrypt_file(const char *infilename, const char *outfilename)
 
     /* Write the header and SIV block to the output file */
     exit_val = 1;
-    if (!safe_file_write(&output, &header, sizeof(header)) ||
-            !safe_file_write(&output, &siv, sizeof(siv))) {
+    if (safe_file_write(&output, &header, sizeof(header)) != (int)sizeof(header) ||
+            safe_file_write(&output, &siv, sizeof(siv)) != (int)sizeof(siv)) {
         exit_val = 0;
     }
 
@@ -509,7 +513,7 @@ static int encrypt_file(const char *infilename, const char *outfilename)
                 break;
             }
             ascon80pq_aead_encrypt_block(&state, data, data, len);
-            if (!safe_file_write(&output, data, len))
+            if (safe_file_write(&output, data, len) != len)
                 exit_val = 0;
             if (len < (int)sizeof(data))
                 break; /* Short last block - we're done */
@@ -518,7 +522,7 @@ static int encrypt_file(const char *infilename, const char *outfilename)
     ascon80pq_aead_encrypt_finalize(&state, data);
     ascon80pq_aead_free(&state);
     if (exit_val) {
-        if (!safe_file_write(&output, data, ASCON80PQ_TAG_SIZE))
+        if (safe_file_write(&output, data, ASCON80PQ_TAG_SIZE) != ASCON80PQ_TAG_SIZE)
             exit_val = 0;
     }
 
@@ -626,7 +630,7 @@ static int decrypt_file(const char *infilename, const char *outfilename)
                 break;
             }
             ascon80pq_aead_decrypt_block(&state, data, data, len);
-            if (!safe_file_write(&output, data, len))
+            if (safe_file_write(&output, data, len) != len)
                 exit_val = 0;
             memmove(data, data + len, 16);
             if (len < (int)(sizeof(data) - 16))
